@@ -43,4 +43,48 @@ mod verif_number {
         }
     }
 
+
+    /// C01 / C07, leaves of the big-decimal float fallback (`decimal::parse_decimal`): `is_8digits` is exactly
+    /// "all eight little-endian bytes are ASCII digits", for every u64 (wrapping arithmetic, no panic). Complete.
+    #[kani::proof]
+    #[kani::unwind(9)]
+    fn is_8digits_all() {
+        let v: u64 = kani::any();
+        let b = v.to_le_bytes();
+        let mut all = true;
+        let mut i = 0;
+        while i < 8 {
+            if !(b[i] >= b'0' && b[i] <= b'9') { all = false; }
+            i += 1;
+        }
+        assert!(crate::common::is_8digits(v) == all);
+        kani::cover!(all);
+        kani::cover!(!all);
+    }
+
+    /// `read_u64` / `write_u64` on a window of 8..=15 bytes: little-endian, touch exactly the first 8 bytes,
+    /// inverse of each other; `v - 0x3030..30` after `is_8digits(v)` never underflows and leaves the digit values.
+    #[kani::proof]
+    #[kani::unwind(17)]
+    fn read_write_u64_window() {
+        use crate::common::ByteSlice;
+        let src: [u8; 15] = kani::any();
+        let len: usize = kani::any();
+        kani::assume(len >= 8 && len <= 15);
+        let v = src[..len].read_u64();
+        assert!(v == u64::from_le_bytes([src[0], src[1], src[2], src[3], src[4], src[5], src[6], src[7]]));
+        let mut dst: [u8; 15] = kani::any();
+        let before = dst;
+        if crate::common::is_8digits(v) {
+            dst[..len].write_u64(v - 0x3030_3030_3030_3030);
+            let mut i = 0;
+            while i < 15 {
+                if i < 8 { assert!(dst[i] == src[i] - b'0' && dst[i] <= 9); } else { assert!(dst[i] == before[i]); }
+                i += 1;
+            }
+            kani::cover!(true);
+        }
+    }
+
+
 }
